@@ -1,8 +1,10 @@
 """C34 the identity map holds at most one object per row (engine H, invariants in every state).
 
-Every history over the alphabet below (loads, get, merge, refresh, expunge,
-re-add, primary-key changes, flush/commit/rollback, reference drops + gc) is
-replayed on a fresh Session and fresh SQLite file.  After *every* operation:
+Every history over the alphabet below (loads, get, merge, merge_all, refresh,
+expunge, re-add, primary-key changes -- assigned by the application or made by
+the flush itself through a Python-side ``onupdate`` default on a primary-key
+column --, flush/commit/rollback, reference drops + gc) is replayed on a fresh
+Session and fresh SQLite file.  After *every* operation:
 
  (a) no two live objects that are persistent in the session share an identity
      key, and each of them *is* the identity map's entry for its key;
@@ -19,7 +21,17 @@ replayed on a fresh Session and fresh SQLite file.  After *every* operation:
      it refreshes (>= 1 statement) and returns the same object;
      populate_existing always selects and returns the same object;
  (e) merge returns the identity map's object when one is present and never
-     attaches its source.
+     attaches its source; merge_all ("calls Session.merge on multiple
+     instances") satisfies the same per source, every result is in the
+     session, and sources that carry one identity resolve to ONE object,
+     whether or not the row exists yet.
+
+Worlds (helper ``vf/worlds/c34_world.py`` = ormworld1.World + ``merge_all`` +
+the ``Doc`` mapping): plain, poly, natural as before; ``doc`` has the composite
+primary key ``(id, rev)`` where ``rev`` carries ``onupdate=<next revision>``
+(per-World counter, part of the canonical state), so every UPDATE of a loaded
+row moves the row to a new identity inside the flush without an attribute
+event; invariant (b) then demands the key switch.
 
 The pre-state that (d) quotes ("present", "not expired") is read from the
 Session before the operation; nothing is predicted from hand-written SQL.
@@ -49,6 +61,15 @@ Mutations caught (private copy, `VF_REPO=/tmp/wt-orm1 ./check C34`):
  * identity.py `WeakInstanceDict.add`: "another instance with key is already
    present" raised only if the existing state is modified (twin attach
    succeeds) -> "persistent object is not the identity map's entry for its key"
+ * seeded C34-b, session.py `merge_all`: per-instance merges wrapped in
+   `no_autoflush` (second source with the same new primary key no longer
+   finds the first, pending, result) -> "merge_all returned two different
+   objects for one identity" (plain world, depth 1)
+ * seeded C34-a, session.py `_register_persistent`: identity key reused when
+   the primary-key attributes carry no history (an onupdate default on a pk
+   column writes straight into the dict) -> "flush: after flush the identity
+   key differs from the object's primary-key attribute" (doc world, depth 3:
+   get, set name, flush)
 """
 from __future__ import annotations
 
@@ -57,6 +78,7 @@ import gc
 from sqlalchemy import inspect
 
 from ..worlds import ormworld1 as W
+from ..worlds import c34_world as W34
 
 ID = "C34"
 LEVEL = "model_checking"
@@ -66,9 +88,10 @@ META = dict(
     "evaluated in every reached state, canonical-state dedupe",
     design_ref="DESIGN.md §5 C34",
     level_text="All histories up to the stated depth over query / yield_per iteration / identity_token query / get / "
-    "get(populate_existing) / refresh / merge / expunge / add / delete / set / primary-key change / flush / commit / "
-    "rollback / savepoint / make_transient_to_detached / dropref+gc, in three worlds: plain rows with a transient twin "
-    "of an existing row, a joined+single-table polymorphic hierarchy, and natural primary keys that are switched. "
+    "get(populate_existing) / refresh / merge / merge_all (a source list naming an existing identity and a not-yet-existing identity twice) / expunge / add / delete / set / primary-key change / flush / commit / "
+    "rollback / savepoint / make_transient_to_detached / dropref+gc, in four worlds: plain rows with a transient twin "
+    "of an existing row, a joined+single-table polymorphic hierarchy, natural primary keys that are switched, and a "
+    "composite primary key (id, rev) whose rev column has a Python-side onupdate default so that the flush itself moves the key. "
     "After every operation the identity map, every live object and every returned object are checked against the "
     "property's invariants; Session.get's statement count is measured with before_cursor_execute.",
     level_note="Trusted: the invariant evaluator (~150 lines) and the deep canonical state used for dedupe. The oracle "
@@ -78,8 +101,10 @@ META = dict(
     "a replayed history; non-trivial = the op returned >= 1 mapped object or changed the identity map",
     assumptions=["single Session, single thread, SQLite file database", "gc disabled; collection points are the enumerated gc ops"],
     bounds=dict(
-        quick="plain world depth <= 3 (full alphabet, ~40 ops per state); polymorphic depth <= 3; natural-key depth <= 5; expire_on_commit True",
-        thorough="plain depth <= 4; polymorphic depth <= 4; natural-key depth <= 5; expire_on_commit True and False",
+        quick="plain world depth <= 3 (full alphabet, ~41 ops per state, one merge_all source list [existing pk, new pk, same new pk]); polymorphic depth <= 3; "
+        "natural-key depth <= 5; onupdate-pk (doc) world depth <= 4 (2 rows, 5 load/merge ops + 5 ops per held object + flush/commit/rollback); expire_on_commit True",
+        thorough="plain depth <= 4 with three merge_all source lists (also [new, same new] and [existing, same existing]); polymorphic depth <= 4; natural-key depth <= 5; "
+        "doc depth <= 5; expire_on_commit True and False",
     ),
 )
 
@@ -105,13 +130,42 @@ WORLDS = dict(
         sql_count=True,
         record_events=False,
     ),
+    # composite primary key (id, rev); rev has a Python-side onupdate default: every UPDATE moves the row's key inside the flush
+    doc=dict(
+        universe=[],
+        seed={"doc": [(1, 1, "s"), (2, 1, "t")]},
+        tables=("doc",),
+        sql_count=True,
+        record_events=False,
+    ),
 )
-DEPTH = dict(quick=dict(plain=3, poly=3, natural=5), thorough=dict(plain=4, poly=4, natural=5))
+WORLD_ORDER = ("plain", "poly", "natural", "doc")
+DEPTH = dict(quick=dict(plain=3, poly=3, natural=5, doc=4), thorough=dict(plain=4, poly=4, natural=5, doc=5))
 EOCS = dict(quick=(True,), thorough=(True, False))
 MAX_BORN = 3
 TYPE_CLASS = {"engineer": "Engineer", "manager": "Manager", "person": "Person"}
 SUBTYPES = dict(Person=("person", "engineer", "manager"), Engineer=("engineer",), Manager=("manager",))
-TABLE_FOR = dict(Plain="plain", NNode="nnode", Person="person", Engineer="person", Manager="person")
+TABLE_FOR = dict(Plain="plain", NNode="nnode", Person="person", Engineer="person", Manager="person", Doc="doc")
+NPK = dict(doc=2)  # number of leading primary-key columns per table (default 1)
+pkattrs = W34.pkattrs
+# Session.merge_all() source lists (plain world): an existing identity and a not-yet-existing identity given twice
+MERGE_ALL = dict(
+    quick=[((("id", 1), ("name", "m")), (("id", 3), ("name", "n")), (("id", 3), ("name", "p")))],
+    thorough=[
+        ((("id", 1), ("name", "m")), (("id", 3), ("name", "n")), (("id", 3), ("name", "p"))),
+        ((("id", 3), ("name", "n")), (("id", 3), ("name", "p"))),
+        ((("id", 1), ("name", "m")), (("id", 1), ("name", "n"))),
+    ],
+)
+
+
+def pk_tuple(pk):
+    return tuple(pk) if isinstance(pk, (tuple, list)) else (pk,)
+
+
+def pk_value(keytuple):
+    """identity-key tuple -> the value the ops / rows_of use (scalar for single-column keys)"""
+    return keytuple[0] if len(keytuple) == 1 else tuple(keytuple)
 
 
 def make_cfg(world, eoc):
@@ -141,7 +195,7 @@ class Light:
         return (self.held, self.nborn, self.nsp)
 
 
-def enabled(ms, world):
+def enabled(ms, world, tier="quick"):
     ops = []
     constructed = [n for n in ms.held if not n.startswith("b")]
     born = [n for n in ms.held if n.startswith("b")]
@@ -152,6 +206,7 @@ def enabled(ms, world):
             ops += [("query_iter", "Plain", (("yield_per", 1),)), ("query", "Plain", (("identity_token", "t"),))]
             ops += [("get", "Plain", 1, (("populate_existing", True),)), ("get", "Plain", 1, (("identity_token", "t"),))]
             ops += [("merge", "Plain", (("id", 1), ("name", "m"))), ("merge", "Plain", (("id", 3), ("name", "m")))]
+            ops += [("merge_all", "Plain", srcs) for srcs in MERGE_ALL[tier]]
         for n in constructed:
             ops += [("add_known", n, "auto"), ("mttd_known", n, "auto")]
         for n in ms.held:
@@ -170,6 +225,13 @@ def enabled(ms, world):
         for n in ms.held:
             ops += [("expunge", n), ("delete_live", n), ("refresh", n), ("dropref", n)]
         ops += [("flush",), ("commit",), ("rollback",), ("gc",)]
+    elif world == "doc":
+        if can_bear:
+            ops += [("query", "Doc"), ("get", "Doc", (1, 1)), ("get", "Doc", (1, 2)), ("get", "Doc", (1, 1), (("populate_existing", True),))]
+            ops += [("merge", "Doc", (("id", 1), ("rev", 1), ("name", "m")))]
+        for n in ms.held:
+            ops += [("set", n, "name", "b"), ("set", n, "name", "c"), ("set", n, "id", 7), ("expunge", n), ("refresh", n)]
+        ops += [("flush",), ("commit",), ("rollback",)]
     else:  # natural
         if can_bear:
             ops += [("query", "NNode"), ("get", "NNode", "k1"), ("get", "NNode", "k2"), ("get", "NNode", "k3")]
@@ -189,7 +251,7 @@ def enabled(ms, world):
 
 
 def build(cfg, history):
-    w = W.World(cfg)
+    w = W34.World34(cfg)
     for op in history:
         w.apply(tuple(op))
     return w
@@ -218,7 +280,8 @@ def rows_of(w, clsname):
     rows = dict(w.session_rows()).get(t, ())
     if t == "person":
         return [(r[0], r[1]) for r in rows if r[1] in SUBTYPES[clsname]]
-    return [(r[0], None) for r in rows]
+    n = NPK.get(t, 1)
+    return [(r[0] if n == 1 else tuple(r[:n]), None) for r in rows]
 
 
 def invariants(w, after_flush):
@@ -236,10 +299,10 @@ def invariants(w, after_flush):
         elif W.state_of(o) != "persistent":
             problems.append(("identity map holds an object that is not persistent (%s)" % W.state_of(o), "%s under %r" % (nm, key[1:])))
         elif after_flush and not st.modified:
-            pkattr = W.PKATTR[type(o).__name__]
-            if pkattr in o.__dict__ and (o.__dict__[pkattr],) != tuple(key[1]):
+            attrs = pkattrs(type(o).__name__)
+            if all(a in o.__dict__ for a in attrs) and tuple(o.__dict__[a] for a in attrs) != tuple(key[1]):
                 problems.append(
-                    ("after flush the identity key differs from the object's primary-key attribute", "%s key %r attribute %r" % (nm, key[1], o.__dict__[pkattr]))
+                    ("after flush the identity key differs from the object's primary-key attribute", "%s key %r attribute %r" % (nm, key[1], pk_value(tuple(o.__dict__[a] for a in attrs))))
                 )
     seen = {}
     for name in sorted(w.weak):
@@ -274,10 +337,10 @@ def check_returned(w, names, clsname, token, pre):
             problems.append(("query returned an object that is not the identity map's entry for its key", "%s %r" % (n, k)))
         if k[0] != base or k[2] != token:
             problems.append(("query returned an object under an unexpected identity key", "%s %r, expected class %s token %r" % (n, k, base, token)))
-        pkval = getattr(o, W.PKATTR[type(o).__name__])
-        if (pkval,) != k[1]:
-            problems.append(("returned object's primary key attribute differs from its identity key", "%s %r vs %r" % (n, pkval, k)))
-        got.append((k[1][0], type(o).__name__))
+        pkval = tuple(getattr(o, a) for a in pkattrs(type(o).__name__))
+        if pkval != k[1]:
+            problems.append(("returned object's primary key attribute differs from its identity key", "%s %r vs %r" % (n, pk_value(pkval), k)))
+        got.append((pk_value(k[1]), type(o).__name__))
     if len(set(names)) != len(names):
         problems.append(("query returned the same object for two rows", repr(names)))
     want_pks = sorted(pk for pk, _ in want)
@@ -320,7 +383,7 @@ def check_step(cfg, hist_, ms, op):
         failed_flush = False
         if not out.ok and out.is_sa_error:
             # an error leaves the identity invariants intact; a failed flush ends the history
-            failed_flush = not w.session.is_active or kind in ("flush", "commit", "begin_nested", "sp_commit", "query", "query_iter", "merge")
+            failed_flush = not w.session.is_active or kind in ("flush", "commit", "begin_nested", "sp_commit", "query", "query_iter", "merge", "merge_all")
         after_flush = out.ok and kind in ("flush", "commit", "begin_nested", "sp_commit")
         if w.session.is_active:
             for sig, d in invariants(w, after_flush):
@@ -335,7 +398,7 @@ def check_step(cfg, hist_, ms, op):
             kw = dict(op[3]) if len(op) > 3 and op[3] else {}
             token = kw.get("identity_token")
             base = "Person" if op[1] in ("Person", "Engineer", "Manager") else op[1]
-            key = (base, (op[2],), token)
+            key = (base, pk_tuple(op[2]), token)
             present = pre.get(key)
             rowtypes = dict(rows_of(w, op[1]))
             allrow = dict(rows_of(w, base))
@@ -384,12 +447,31 @@ def check_step(cfg, hist_, ms, op):
         if kind == "merge" and out.ok:
             name, src_state = out.value
             base = "Person" if op[1] in ("Person", "Engineer", "Manager") else op[1]
-            pk = dict(op[2])[W.PKATTR[op[1]]]
-            present = pre.get((base, (pk,), None))
+            pk = tuple(dict(op[2])[a] for a in pkattrs(op[1]))
+            present = pre.get((base, pk, None))
             if src_state != "transient":
                 problems.append(("merge attached its source object", src_state))
-            if present and name != present[0] and still_holds(w, present[0], (base, (pk,), None)):
+            if present and name != present[0] and still_holds(w, present[0], (base, pk, None)):
                 problems.append(("merge returned a different object than the one in the identity map", "%r vs %r" % (name, present[0])))
+        if kind == "merge_all" and out.ok:
+            # merge_all "calls Session.merge on multiple instances": (e) per source, and sources that carry one
+            # identity resolve to ONE object (there is never more than one object for an identity key)
+            names, src_states = out.value
+            base = "Person" if op[1] in ("Person", "Engineer", "Manager") else op[1]
+            first = {}
+            for values, name, src_state in zip(op[2], names, src_states):
+                key = (base, tuple(dict(values)[a] for a in pkattrs(op[1])), None)
+                present = pre.get(key)
+                if src_state != "transient" or name == "src":
+                    problems.append(("merge_all attached a source object", "%s %s" % (name, src_state)))
+                if present and name != present[0] and still_holds(w, present[0], key):
+                    problems.append(("merge_all returned a different object than the one in the identity map", "%r vs %r" % (name, present[0])))
+                if first.setdefault(key, name) != name:
+                    problems.append(("merge_all returned two different objects for one identity", "%r: %r and %r" % (key[1], first[key], name)))
+                r = w.weak.get(name)
+                o = r() if r is not None else None
+                if o is None or inspect(o).session is not w.session:
+                    problems.append(("merge_all returned an object that is not in the session", repr(name)))
         # ---- bookkeeping
         m2 = ms.copy()
         m2.held = tuple(n for n in sorted(w.objs, key=lambda n: (n.startswith("b"), n)))
@@ -399,8 +481,8 @@ def check_step(cfg, hist_, ms, op):
         terminal = not out.ok and out.is_sa_error and not w.session.is_active
         canon = None
         if not problems and not terminal:
-            canon = W.deep_canon(w)
-        changed = snapshot_map(w) != pre or (out.ok and kind in ("query", "query_iter", "get", "merge") and bool(out.value))
+            canon = (W.deep_canon(w), w.rev_next)  # rev_next: Doc's revision counter is part of the state
+        changed = snapshot_map(w) != pre or (out.ok and kind in ("query", "query_iter", "get", "merge", "merge_all") and bool(out.value))
         info["identity_map_before"] = {repr(k): v for k, v in pre.items()}
         return problems, m2, canon, info, terminal, changed
     finally:
@@ -438,6 +520,7 @@ SHARD_TIMEOUT = dict(quick=4 * 3600, thorough=12 * 3600)  # watchdog only; the b
 WARM = dict(
     plain=[("query", "Plain"), ("get", "Plain", 3), ("add_known", "z", "auto"), ("set", "b1", "name", "w"), ("flush",), ("merge", "Plain", (("id", 1), ("name", "m"))), ("refresh", "b1"), ("delete_live", "b2"), ("commit",), ("get", "Plain", 1)],
     poly=[("query", "Person"), ("get", "Engineer", 1), ("add_known", "e", "auto"), ("flush",), ("refresh", "b1"), ("delete_live", "b2"), ("commit",), ("get", "Manager", 2)],
+    doc=[("query", "Doc"), ("set", "b1", "name", "b"), ("flush",), ("get", "Doc", (1, 2)), ("set", "b1", "id", 7), ("commit",), ("get", "Doc", (1, 1)), ("merge", "Doc", (("id", 1), ("rev", 1), ("name", "m"))), ("refresh", "b2"), ("rollback",)],
     natural=[("query", "NNode"), ("set", "b1", "code", "k4"), ("add_known", "n", "auto"), ("begin_nested",), ("sp_commit",), ("commit",), ("get", "NNode", "k4"), ("delete_live", "b2"), ("flush",), ("rollback",)],
 )
 
@@ -445,13 +528,13 @@ WARM = dict(
 def run_shard(shard, tier, rec):
     jobs = W.jobs_from_argv()
     try:
-        for world in ("plain", "poly", "natural"):
+        for world in WORLD_ORDER:
             for eoc in EOCS[tier]:
                 cfg = make_cfg(world, eoc)
                 ms0 = Light(cfg)
                 w0 = build(cfg, ())
                 try:
-                    key0 = (world, eoc, ms0.canon(), W.deep_canon(w0))
+                    key0 = (world, eoc, ms0.canon(), (W.deep_canon(w0), w0.rev_next))
                 finally:
                     w0.close()
                 depth = DEPTH[tier][world]
@@ -459,7 +542,7 @@ def run_shard(shard, tier, rec):
                     rec,
                     ID,
                     [((), ms0, key0)],
-                    lambda ms, world=world: enabled(ms, world),
+                    lambda ms, world=world, tier=tier: enabled(ms, world, tier),
                     lambda r, cfg=cfg: make_step(cfg, r),
                     depth,
                     jobs,
